@@ -1074,6 +1074,14 @@ def entry_totality(ctx, rule, sizes, fac):
     """Panic sites of the ranking entry points (wrappers around hand_rank_value_and_hand) on hands of real cards."""
     from .base import decide_site
     rep, pdb = ctx.rep, ctx.pdb
+    # the conversion of a value into a rank is total over every value (decided once, over all of u16); inside the entry
+    # points it is then left uninterpreted
+    kfrom = pdb.trait_impl("core::convert::From", "hand_rank::HandRank", ["u16"])["items"]["from"]
+    if not ctx.cache.get("from-total-" + rule):
+        ctx.cache["from-total-" + rule] = True
+        from .cards import total_over_scalar
+        smf_ = ctx.summ(kfrom, [("v", atom("v", "u16"))])
+        total_over_scalar(ctx, rule + ".conversion", smf_, "v", "u16", [0, 1, 10, 7462, 7463, 32767, 32768, 65535])
     for path, n in sizes:
         k_and, _ = ctx.method(path, "hand_rank_value_and_hand", HR)
         k_valid, _ = ctx.method(path, "is_valid", HV)
@@ -1082,7 +1090,7 @@ def entry_totality(ctx, rule, sizes, fac):
             entries.append((("evaluate::five_cards", None), "evaluate::five_cards"))
         for (key, sty), label in entries:
             arg = [("r", ctx.hand(path, n))] if key != "evaluate::five_cards" else [("v", agg(("array",), slot_atoms(5)))]
-            sm_op = ctx.summ(key, arg, sty, opaque={k_and, k_valid})
+            sm_op = ctx.summ(key, arg, sty, opaque={k_and, k_valid, kfrom})
             sm_in = None
             cnt = 0
             for o in sm_op.obligations:
@@ -1093,7 +1101,7 @@ def entry_totality(ctx, rule, sizes, fac):
                 okk = decide_site(ctx, o, assume=earlier_asserted(sm_op.obligations, o))[0] is True
                 if not okk:
                     if sm_in is None:
-                        sm_in = ctx.summ(key, arg, sty, opaque={k_and})
+                        sm_in = ctx.summ(key, arg, sty, opaque={k_and, kfrom})
                     twin = next((q for q in sm_in.obligations if (q.fn, q.kind, q.line) == (o.fn, o.kind, o.line)), None)
                     if twin is not None:
                         okk = slotwise_discharge(ctx, twin, fac, masks_upto(5), valid_only=True)
@@ -2852,6 +2860,10 @@ def check_C05(ctx):
     fac_entries = fac if "fac" in dir() else None
 
     def entries():
+        # the conversion of a value into a rank: total over every u16, decided once; uninterpreted inside the entries
+        kfrom_ = pdb.trait_impl("core::convert::From", "hand_rank::HandRank", ["u16"])["items"]["from"]
+        from .cards import total_over_scalar
+        total_over_scalar(ctx, "C05.panic-site.conversion", ctx.summ(kfrom_, [("v", atom("v", "u16"))]), "v", "u16", [0, 1, 10, 7462, 7463, 32767, 32768, 65535])
         for path, n in ((FIVE, 5), (SIX, 6), (SEVEN, 7)):
             for meth in ("hand_rank", "hand_rank_validated", "hand_rank_value", "hand_rank_value_validated"):
                 key, sty = ctx.method(path, meth, HR)
@@ -2860,8 +2872,8 @@ def check_C05(ctx):
                 # two summaries: with the validity test inlined for the panic sites *inside* it (they depend on the
                 # slot words), and with it left uninterpreted for everything else (arithmetic on the value, which is
                 # then independent of how validity was established)
-                sm_in = ctx.summ(key, [("r", ctx.hand(path, n))], sty, opaque={k_and})
-                sm_op = ctx.summ(key, [("r", ctx.hand(path, n))], sty, opaque={k_and, k_valid_})
+                sm_in = ctx.summ(key, [("r", ctx.hand(path, n))], sty, opaque={k_and, kfrom_})
+                sm_op = ctx.summ(key, [("r", ctx.hand(path, n))], sty, opaque={k_and, k_valid_, kfrom_})
                 inside = [o for o in sm_in.obligations if k_valid_ in o.stack or o.fn == k_valid_]
                 for o in inside + list(sm_op.obligations):
                     if "are_unique" in o.fn:
